@@ -111,10 +111,9 @@ def evalCmp (v : Option Val) (op : Op) (l : Lit) : Tri × Classes :=
   match l with
   | .int _ | .dec _ _ =>
     let lq : Rat := match l with | .int i => (i : Rat) | .dec q _ => q | _ => 0
-    let litDec := match l with | .dec _ _ => true | _ => false
     match v with
     | none => (if op == .ne then .either else .no, [])
-    | some (.int i) => (Tri.ofBool (cmpRat op (i : Rat) lq), if litDec then ["int-value-decimal-literal"] else [])
+    | some (.int i) => (Tri.ofBool (cmpRat op (i : Rat) lq), [])
     | some (.dec q _) => (Tri.ofBool (cmpRat op q lq), [])
     | some (.str s) =>
       match numericText? s with
